@@ -308,33 +308,6 @@ fn read_samples(a: &Args, rep: &mut Report) -> Vec<(String, Vec<u8>)> {
     v
 }
 
-/// Random item, biased towards the things the configurations treat differently:
-/// half floats, indefinite strings, indefinite containers inside definite ones.
-fn hot_item(rng: &mut Rng, depth: usize) -> Item {
-    let leaf = |rng: &mut Rng| match rng.below(9) {
-        0 => Item::F16(rng.next_u32() as u16),
-        1 => Item::F16(*rng.pick(&[0x0000u16, 0x3c00, 0x7c00, 0xfc00, 0x7e00, 0x0001, 0x7bff, 0x8000])),
-        2 => Item::F32(gen::gen_f32_bits(rng)),
-        3 => Item::TextIndef((0..rng.below(3)).map(|_| { let n = rng.below(4) as usize; let s = gen::gen_string_len(rng, n); (refcbor::min_width(s.len() as u64), s.into_bytes()) }).collect()),
-        4 => Item::BytesIndef((0..rng.below(3)).map(|_| { let n = rng.below(4) as usize; (refcbor::min_width(n as u64), rng.bytes(n)) }).collect()),
-        5 => Item::uint(gen::gen_u64(rng)),
-        6 => Item::text(&gen::gen_string(rng, false)),
-        7 => Item::null(),
-        _ => Item::int(gen::gen_cbor_int(rng)),
-    };
-    if depth == 0 || rng.chance(2, 5) {
-        return leaf(rng);
-    }
-    let n = rng.below(4) as usize;
-    match rng.below(5) {
-        0 => Item::array((0..n).map(|_| hot_item(rng, depth - 1)).collect()),
-        1 => Item::array_indef((0..n).map(|_| hot_item(rng, depth - 1)).collect()),
-        2 => Item::map((0..n).map(|_| (Item::uint(rng.below(12)), hot_item(rng, depth - 1))).collect()),
-        3 => Item::map_indef((0..n).map(|_| (hot_item(rng, 0), hot_item(rng, depth - 1))).collect()),
-        _ => Item::tag(rng.below(30), hot_item(rng, depth - 1)),
-    }
-}
-
 /// Add "unknown fields": extra array elements / map entries (forces the
 /// derived and serde decoders through skip).
 fn extend_unknown(rng: &mut Rng, it: &Item, p: u64) -> Item {
@@ -343,7 +316,7 @@ fn extend_unknown(rng: &mut Rng, it: &Item, p: u64) -> Item {
             let mut v: Vec<Item> = items.iter().map(|x| extend_unknown(rng, x, p)).collect();
             if rng.chance(p, 100) {
                 for _ in 0..1 + rng.below(2) {
-                    v.push(hot_item(rng, 2))
+                    v.push(gen::gen_hot_item(rng, 2))
                 }
             }
             Item::Array { w: w.map(|_| refcbor::min_width(v.len() as u64)), items: v }
@@ -355,7 +328,7 @@ fn extend_unknown(rng: &mut Rng, it: &Item, p: u64) -> Item {
                 for _ in 0..1 + rng.below(2) {
                     let k = if text_keys { Item::text(*rng.pick(&["zz", "unknown", "a0", ""])) } else { Item::uint(10 + rng.below(400)) };
                     let at = rng.usize_below(v.len() + 1);
-                    v.insert(at, (k, hot_item(rng, 2)))
+                    v.insert(at, (k, gen::gen_hot_item(rng, 2)))
                 }
             }
             Item::Map { w: w.map(|_| refcbor::min_width(v.len() as u64)), items: v }
@@ -377,7 +350,7 @@ fn replace_leaf(rng: &mut Rng, it: &Item) -> Item {
             Item::Map { w: *w, items: items.iter().enumerate().map(|(i, (kk, x))| if i == k { (kk.clone(), replace_leaf(rng, x)) } else { (kk.clone(), x.clone()) }).collect() }
         }
         Item::Tag { w, v, inner } => Item::Tag { w: *w, v: *v, inner: Box::new(replace_leaf(rng, inner)) },
-        _ => hot_item(rng, 1),
+        _ => gen::gen_hot_item(rng, 1),
     }
 }
 
@@ -494,11 +467,11 @@ pub fn run(a: &Args, rep: &mut Report) {
         let (b, origin): (Vec<u8>, &str) = match i % 6 {
             0 => (corpus::random_tree("c20/tree", a.seed, i, true).0.encode(), "random-tree"),
             1 => (crate::c04::shaped_item(&mut rng).encode(), "shaped"),
-            2 => (hot_item(&mut rng, 3).encode(), "hot"),
-            3 => (Item::array(vec![hot_item(&mut rng, 2), Item::uint(rng.below(30))]).encode(), "hot-in-array"),
+            2 => (gen::gen_hot_item(&mut rng, 3).encode(), "hot"),
+            3 => (Item::array(vec![gen::gen_hot_item(&mut rng, 2), Item::uint(rng.below(30))]).encode(), "hot-in-array"),
             4 => {
                 let v = crate::c04::shaped_item(&mut rng).encode();
-                let o = hot_item(&mut rng, 2).encode();
+                let o = gen::gen_hot_item(&mut rng, 2).encode();
                 (gen::mutate(&mut rng, &v, &o).0, "mutant")
             }
             _ => { let n = 1 + rng.usize_below(12); (rng.bytes(n), "random-bytes") }
@@ -633,7 +606,7 @@ pub fn run_c06n(a: &Args, rep: &mut Report) {
         }
         let (it, mut r) = if i % 3 == 0 {
             let mut r = Rng::derive("c06n/hot", a.seed, 0, i);
-            (hot_item(&mut r, 4), r)
+            (gen::gen_hot_item(&mut r, 4), r)
         } else {
             corpus::random_tree("c06n/tree", a.seed, i, true)
         };
